@@ -661,7 +661,9 @@ class FunctionLocation(Location):
             # two such tracepoints in one file are different locations, and neither is the location of a line
             # tracepoint on that line (whose id is <path>#<line>)
             return "%s#method@%s" % (self.path, self.__tracepoint_line)
-        return "%s#%s" % (self.path, self.__function_name)
+        # (a function can be called anything a line number reads like: '5' is not line 5, and 'method@5' is not the
+        # tracepoint above - tracepoints with one id are merged into one location)
+        return "%s#method=%s" % (self.path, self.__function_name)
 
     @property
     def path(self):
